@@ -105,3 +105,12 @@ def run(cx):
         v = did[0].get('value', {})
         ok = bytes.fromhex(v.get('bytes', '')) == pa.params()['sm2']['default_id'].encode()
     cx.add('K-DEFAULT-ID', 'gm_sm2', ok, 'default signer ID is the 16 bytes "1234567812345678"')
+
+
+_run0 = run
+
+
+def run(cx):
+    from .. import rules_s as S
+    _run0(cx)
+    S.s_siblings(cx, 'S-SIBLING', only=('mod-add', 'modn-sub', 'mont-mul', 'to-mont', 'from-mont', 'limb-add', 'limb-sub', 'limb-cmp', 'limb-mul'))
